@@ -22,21 +22,23 @@ REQUIRED_WITNESSES = ["history-with-empty-frame", "history-with-reappearing-anim
 
 
 def bounds(tier):
-    return {"animals K": 2 if tier == "quick" else 3, "frames F": 3 if tier == "quick" else 4, "candidates": ["fixed_window", "local_queues"], "matching": ["hungarian", "greedy"],
+    return {"animals K": "2" if tier == "quick" else "3 (Hungarian) / 2 (greedy)", "frames F": "3" if tier == "quick" else "3, 4 (Hungarian, K=2)", "candidates": ["fixed_window", "local_queues"], "matching": ["hungarian", "greedy"],
             "reduction": ["mean", "max"], "window": "{1, 2, F+1}", "threshold": "0.0 with fixed instance score 0.9; 0.5 with symbolic instance scores",
             "listing order": "as numbered or reversed, per frame"}
 
 
 def configs(tier, seed):
     out = []
-    K, F = (2, 3) if tier == "quick" else (3, 3)
+    F = 3
     for cand in ("fixed_window", "local_queues"):
         for matching in ("hungarian", "greedy"):
+            # three animals / four frames only with the Hungarian matcher: greedy sorts all symbolic scores of a frame and exceeded the path budget (60000) after ~22 min per configuration
+            K = 3 if (tier == "thorough" and matching == "hungarian") else 2
             for reduction, window in (("mean", F + 1), ("max", 2), ("mean", 1)):
                 out.append(dict(K=K, F=F, cand=cand, matching=matching, reduction=reduction, window=window, thr=0.0))
             if matching == "hungarian" or tier == "thorough":
                 out.append(dict(K=2, F=3, cand=cand, matching=matching, reduction="mean", window=4, thr=0.5, sym_inst_scores=True, max_paths=400000))
-            if tier == "thorough":
+            if tier == "thorough" and matching == "hungarian":
                 out.append(dict(K=2, F=4, cand=cand, matching=matching, reduction="mean", window=2, thr=0.0))
                 out.append(dict(K=3, F=3, cand=cand, matching=matching, reduction="max", window=2, thr=0.0, score_range="neg"))
     return out
